@@ -954,6 +954,50 @@ def sp_constructed(ex, args, kwargs, node):
     return F_CTOR(uterm(o)) == _ctor_term(cls, list(args[2:]), dict(kwargs))
 
 
+_UFR = {}
+
+
+@spec("ufr")
+def sp_ufr(ex, args, kwargs, node):
+    """ufr('name', r1, ..., rn): real-valued uninterpreted function of real arguments (numerical kernels whose value is not the
+    subject of the obligation, e.g. the spherical-triangle Jacobian at a quadrature point)"""
+    name, rest = args[0], list(args[1:])
+    flat = []
+    for a in rest:
+        if isinstance(a, Small):
+            flat.extend(a.flat())
+        elif isinstance(a, (list, tuple)):
+            flat.extend(a)
+        else:
+            flat.append(a)
+    key = (name, len(flat))
+    if key not in _UFR:
+        _UFR[key] = z3.Function("ufr_" + name, *([V.REAL] * len(flat)), V.REAL)
+    return _UFR[key](*[to_z3(x, "real") for x in flat])
+
+
+_UFARR = {}
+
+
+@spec("ufarr")
+def sp_ufarr(ex, args, kwargs, node):
+    """ufarr('name', a1, ..., ak, n): real-valued uninterpreted function of 1-D real arrays (as array values) and an integer"""
+    name, arrs, n = args[0], list(args[1:-1]), args[-1]
+    key = (name, len(arrs))
+    if key not in _UFARR:
+        _UFARR[key] = z3.Function("ufarr_" + name, *([z3.ArraySort(V.INT, V.REAL)] * len(arrs)), V.INT, V.REAL)
+    ts = []
+    for a in arrs:
+        if not isinstance(a, Arr) or a.rank != 1:
+            raise Unsupported("ufarr of something else than 1-D arrays")
+        t = a.term
+        if a.kind != "real":
+            i = z3.Int(fresh_name("i"))
+            t = z3.Lambda([i], z3.ToReal(z3.Select(t, i)))
+        ts.append(t)
+    return _UFARR[key](*ts, to_z3(n, "int"))
+
+
 @spec("lib_ref")
 def sp_lib_ref(ex, args, kwargs, node):
     """lib_ref('numpy.mean'): the library function object itself (as passed around as a callable)"""
